@@ -77,6 +77,33 @@ def run(ctx):
                 if i % 40 == 0:
                     ctx.sample(dict(desc, rows=len(out), tags=info["row_tags"][:6],
                                     ln_prior=repr(out.tbl["ln_prior"][:6]) if "ln_prior" in out.par_names else None))
+        # ---------------- the library's ln_prior column replaced (re-weighting under another prior) between two runs on the SAME
+        # sampler and library objects: the second run carries the new values
+        if i % 6 == 0:
+            try:
+                rq = ctx.rng(i, 7)
+                pbq = session.make_problem(rq, N=int(rq.choice([40, 150])), profile="flat")
+                from thejoker import TheJoker
+                jq = TheJoker(pbq.prior, rng=np.random.default_rng(int(rq.integers(0, 2 ** 31))), tempfile_path=ctx.tmpdir)
+                mem = bool(rq.random() < 0.6)
+                jq.rejection_sample(pbq.data, pbq.lib, in_memory=mem, return_logprobs=True)
+                new_lp = -(np.arange(pbq.N) * 3.0 + 0.25)
+                if rq.random() < 0.5:
+                    pbq.lib["ln_prior"] = new_lp
+                else:
+                    pbq.lib["ln_prior"][:] = new_lp            # in place, through the live column
+                import astropy.units as u_
+                o2 = jq.rejection_sample(pbq.data, pbq.lib, in_memory=mem, return_logprobs=True, n_linear_samples=int(rq.choice([1, 2])))
+                tags2, ok2 = session.tags_of(pbq, np.asarray(o2["P"].to_value(u_.day), dtype=float))
+                ctx.evaluations += 1
+                ctx.distinct.add(repr(("ln_prior-replaced-between-runs", mem)))
+                if bool(np.all(ok2)) and not np.array_equal(np.asarray(o2["ln_prior"], dtype=float), new_lp[np.asarray(tags2, dtype=int)]):
+                    ctx.violation("ln_prior-misattributed", "after the library's ln_prior column was replaced on the same object, the "
+                                  "second run (%s) still returns other values (e.g. row of library row %d: %r, column now holds %r)"
+                                  % ("in memory" if mem else "cache", int(tags2[0]), float(np.asarray(o2["ln_prior"])[0]),
+                                     float(new_lp[int(tags2[0])])), dict(index=i, in_memory=mem))
+            except Exception as e:
+                ctx.exception(e, "second run after replacing ln_prior", dict(index=i))
         # ---------------- iterative_rejection_sample
         rng2 = ctx.rng(i, 1)
         try:
